@@ -291,7 +291,7 @@ def build(dm, annexed, names=None, cache=True, omp=None):
             else:
                 stmt = loops[0].loop_body.children[0]
                 rec["body"] = export_stmt(stmt, p["fmap"], p["smap"], p["dfname"])
-                rec["body_fortran"] = fw(stmt).strip().splitlines()[-1].strip()
+                rec["body_fortran"] = fw._visit(stmt).strip().splitlines()[-1].strip()
                 if not omp:
                     rec["loop_var"] = loops[0].variable.name
                     rec["step"] = fw(loops[0].step_expr).strip()
